@@ -13,7 +13,7 @@ cleanup() { git -C /repo worktree remove --force "$WT" 2>/dev/null; rm -rf "$WT"
 trap cleanup EXIT
 log="$ROOT/.work/seed-$NAME.log"; : > "$log"
 echo "== demo on unchanged tree" >>"$log"
-if ! sh "$SRC/run.sh" "$WT" >>"$log" 2>&1; then echo "REJECT $NAME: demo fails on the unchanged tree"; exit 1; fi
+if ! (cd "$WT" && sh "$SRC/run.sh" "$WT") >>"$log" 2>&1; then echo "REJECT $NAME: demo fails on the unchanged tree"; exit 1; fi
 if ! git -C "$WT" apply "$SRC/patch.diff" 2>>"$log"; then echo "REJECT $NAME: patch does not apply to current HEAD"; exit 1; fi
 if ! (cd "$WT" && go build ./... ) >>"$log" 2>&1; then echo "REJECT $NAME: does not compile"; exit 1; fi
 ok=0
@@ -29,7 +29,7 @@ done
 rm -f "$log.suite"
 if [ $ok != 1 ]; then echo "REJECT $NAME: existing suite fails with the patch (see $log)"; exit 1; fi
 echo "== demo with patch" >>"$log"
-if sh "$SRC/run.sh" "$WT" >>"$log" 2>&1; then echo "REJECT $NAME: demo passes with the patch applied"; exit 1; fi
+if (cd "$WT" && sh "$SRC/run.sh" "$WT") >>"$log" 2>&1; then echo "REJECT $NAME: demo passes with the patch applied"; exit 1; fi
 mkdir -p "$ROOT/seeded/$NAME"
 cp "$SRC"/* "$ROOT/seeded/$NAME/" 2>/dev/null
 echo "ACCEPT $NAME"
